@@ -1,5 +1,6 @@
 import DirectVerif.Driver.Common
 import DirectVerif.Model.Sampler
+import DirectVerif.Model.C13Machine
 /-!
 Line-protocol interpreter of the sampler model (C13).
 
@@ -9,6 +10,12 @@ Line-protocol interpreter of the sampler model (C13).
   bvsraw indices | starts | stops | bs | ops   -> same, on an arbitrary inner sampler
   concat sizes | bs | draws | stream_0 | …     -> one group per draw
   dist   size rank world count | perm_0 | …    -> first `count` indices of the rank's stream
+  bvsm   layout | world rank limit bs mode | c0 a0 c1 a1 …   several live iterators over one BatchVolumeSampler:
+         (code, arg) = (0,_) iter · (1,_) len · (2,h) next(it_h) · (3,h) abandon it_h; one group per op:
+         handle | n | batch or -1 (StopIteration) | -3 (closed) | -2 (no such live iterator).  `mode` says how
+         the harness built / iterated the real object (direct, Engine.build_batch_sampler, DataLoader); the
+         model does not depend on it
+  bvsmraw indices | starts | stops | bs | c0 a0 …            same on an arbitrary inner sampler
 -/
 namespace DirectVerif.Driver.C13
 open DirectVerif DirectVerif.Driver DirectVerif.Sampler
@@ -36,8 +43,47 @@ def runOps (b : BVS) (ops : List Int) : String :=
     | .batches bb => fmtBatches bb
     | .len n => [[(n : Int)]])
 
+def decodeOps : List Int → Option (List MOp)
+  | [] => some []
+  | [_] => none
+  | c :: a :: rest =>
+    match decodeOps rest with
+    | none => none
+    | some ops =>
+      if a < 0 then none else
+      if c = 0 then some (.iter :: ops) else if c = 1 then some (.len :: ops)
+      else if c = 2 then some (.next a.toNat :: ops) else if c = 3 then some (.abandon a.toNat :: ops) else none
+
+def fmtOut : MOut → List Int
+  | .handle h => [(h : Int)]
+  | .batch b => b.map Int.ofNat
+  | .stop => [-1]
+  | .len n => [(n : Int)]
+  | .closed => [-3]
+  | .bad => [-2]
+
+def runMachine (b : BVS) (ops : List Int) : String :=
+  match decodeOps ops with
+  | none => "err BadOp"
+  | some ops' =>
+    -- `None - 1` (TypeError) is evaluated by the first `next` that sees an index while there is no volume end
+    if b.raises ∧ ops'.any (fun o => match o with | .next _ => true | _ => false) then "err TypeError" else
+    okG (((Machine.init b).run ops').map fmtOut)
+
 def step (op : String) (gs : List (List Int)) : String :=
   match op, gs with
+  | "bvsm", [layout, [world, rank, limit, bs, _mode], ops] =>
+    match seqVols layout world rank limit with
+    | .error e => "err " ++ e
+    | .ok vols =>
+      if bs < 0 then "err BadOp" else
+      if bs = 0 ∧ !vols.isEmpty then "err ZeroDivisionError" else
+      runMachine (BVS.mk' vols bs.toNat) ops
+  | "bvsmraw", [indices, starts, stops, [bs], ops] =>
+    if bs ≤ 0 ∨ starts.length ≠ stops.length then "err BadOp" else
+    let vols : List Vol := (List.zip (nats starts) (nats stops)).mapIdx fun i (a, b) => ⟨i, a, b⟩
+    let b : BVS := { BVS.mk' vols bs.toNat with indices := nats indices }
+    runMachine b ops
   | "chunks", [[n, k]] =>
     if k = 0 then "err ZeroDivisionError" else
     if n < 0 then "err BadOp" else
